@@ -222,6 +222,9 @@ pub fn record_menu() -> Vec<Rec> {
             v.extend_from_slice(&[0x12, 0x34]);
             v
         }),
+        r("unknown_attr_m_clear", RecClass::Bad, avp_record(0x00, 0, 40, &[1, 2])),
+        r("truncated_m_clear", RecClass::Bad, avp_record(0x00, 0, 15, &[1, 2])),
+        r("vendor_hidden_flag", RecClass::Bad, avp_record(0x03, 0x1234, 7, &ramp(16))),
         r("stray", RecClass::Stray, vec![0x00, 0x08, 0x00]),
     ]
 }
